@@ -87,6 +87,7 @@ type Ctx struct {
 	MapOrders bool
 
 	globals  map[*ssa.Global]*Value
+	atomics  map[*Value]Value // sync/atomic cells (by address)
 	stack    []string
 	Steps    int
 	MaxSteps int
